@@ -27,6 +27,7 @@ def analyse_unit(unit, extra):
     """Worker: C-side rules for one translation unit."""
     out = []
     meta = unit.meta
+    valid_texts = {}
     for variant in VARIANTS:
         try:
             k = Kernel(unit, variant)
@@ -119,6 +120,7 @@ def analyse_unit(unit, extra):
             # not chain - it compares a 0/1 value - and silently turns the guard into a constant
             REL = ("<", ">", "<=", ">=", "==", "!=")
             vcond = if_parts(vif)[0]
+            valid_texts[variant] = (norm(c_text(vcond)), vif.get("_line", 0))
             for nrel in cfront.walk(vcond):
                 if nrel.get("kind") == "BinaryOperator" and nrel.get("opcode") in REL:
                     for ch in kids(nrel):
@@ -243,6 +245,13 @@ def analyse_unit(unit, extra):
         if loops:
             top = "weight%d" % nlev
             _inst(out, "R-C01-restart", dtext(top) in ("1", "1.0"), KI, fn, "%s = %s" % (top, dtext(top)), line, "outermost weight is 1")
+    # ---- the three kernels of a unit test the same validity condition ------------------------------------
+    if valid_texts:
+        ref_v = valid_texts.get("Iq", next(iter(valid_texts.values())))[0]
+        for variant, (txt, ln) in sorted(valid_texts.items()):
+            _inst(out, "R-C01-gate", txt == ref_v, KI, "%s:%s" % (unit.name, variant), "VALID condition: %s" % txt[:70], ln,
+                  "same validity test in the 1-D, 2-D and magnetic kernels" if txt == ref_v else
+                  "the 1-D kernel tests `%s` but this kernel tests `%s`: points the model declares invalid take part here" % (ref_v[:60], txt[:60]))
     # ---- struct (once per unit) --------------------------------------
     fields = None
     for rec in unit.records.values():
